@@ -470,11 +470,22 @@ impl<'a, 'b: 'a> Visitor<'a, 'b, Error> for ParentVisitor<'a, 'b> {
 
         self.visit_group(group)?;
       }
-      Type2::Unwrap { ident, .. } => {
+      Type2::Unwrap {
+        ident,
+        generic_args,
+        ..
+      } => {
         let child = self.arena_tree.node(CDDLType::Identifier(ident));
         self.insert(parent, child)?;
 
         self.visit_identifier(ident)?;
+
+        if let Some(generic_args) = generic_args {
+          let child = self.arena_tree.node(CDDLType::GenericArgs(generic_args));
+          self.insert(parent, child)?;
+
+          self.visit_generic_args(generic_args)?;
+        }
       }
       Type2::ChoiceFromInlineGroup { group, .. } => {
         let child = self.arena_tree.node(CDDLType::Group(group));
